@@ -1,7 +1,7 @@
 (* C16 - channels are born with a founder, die with the last member, or come from config.
    Statements only; proofs in IRCP.JoinP and IRCP.ChanP. *)
-From IRC Require Import Str Wild Glob Parse Reply State Handlers.
-From IRCP Require Import JoinP ChanP InvDefs InvStep Reach.
+From IRC Require Import Str Wild Glob Parse Reply State Handlers Step.
+From IRCP Require Import JoinP ChanP InvDefs InvStep Reach PreconfP.
 From stdpp Require Import gmap.
 
 (* a name that is not a channel: the check phase always says (join, create) - only the quota can refuse *)
@@ -91,6 +91,21 @@ Proof.
   exact (is_ne (sh w) (iw_s w I) ch co Hco Hp).
 Qed.
 
+(* PERSIST WHILE EMPTY AND GIVE THE CONFIGURED RANKS WHENEVER THE LISTED NICKNAMES JOIN, in every reachable world: after
+   any history of events every channel of the configuration still exists, is still marked preconfigured (so it is never
+   dropped when it empties) and still carries the rank lists of the configuration, from which a joiner's ranks are read
+   (C16_configured_ranks_on_join) - no JOIN, PART, KICK, NICK, TOPIC, MODE or session end removes or forgets them *)
+Theorem C16_configured_channels_persist : forall cfg verify w name cc, reachable cfg verify w ->
+  find_last (fun c => str_eqb (cc_name c) name) (cfg_channels cfg) = Some cc ->
+  exists co, chans (sh w) !! name = Some co /\ ch_preconf co = true /\ ch_default co = ch_default (chan_of_cfg cc).
+Proof. exact configured_channels_persist. Qed.
+
+(* one step: a preconfigured channel is still there afterwards, with its mark and its configured rank lists *)
+Theorem C16_preconfigured_kept_by_every_step : forall cfg verify w i e w' o cl, Inv w -> step cfg verify w i e = Ok (w', o, cl) ->
+  forall ch co, chans (sh w) !! ch = Some co -> ch_preconf co = true ->
+  exists co', chans (sh w') !! ch = Some co' /\ ch_preconf co' = true /\ ch_default co' = ch_default co.
+Proof. exact step_pkeeps. Qed.
+
 Print Assumptions C16_no_empty_channel.
 Print Assumptions C16_create_decision.
 Print Assumptions C16_create_effect.
@@ -100,3 +115,5 @@ Print Assumptions C16_other_member_stays.
 Print Assumptions C16_preconfigured_at_startup.
 Print Assumptions C16_preconfigured_settings.
 Print Assumptions C16_configured_ranks_on_join.
+Print Assumptions C16_configured_channels_persist.
+Print Assumptions C16_preconfigured_kept_by_every_step.
